@@ -32,7 +32,8 @@ RULE = ('conversion: base model (AUTOUGH2 for ->TOUGH2, TOUGH2 for ->AUTOUGH2) p
         'atomic deviations (k = 1 quick, 2 thorough), deviations = each section toggled, one more generator of each '
         'of the 36 types in 3 placements (new name / duplicate (block,name) after / before the original), every MOP '
         'position 1..24 x digit 0..9, MP, simulator family x EOS suffix, every SHORT subset x frequency, every '
-        'history representation (absent/objects/bare names)^3, solver types, file names, read-from-file origin, '
+        'history representation (absent/objects/bare names)^3, 7 GOFT lists (block with three generators, block '
+        'requested twice, requested blocks without generator, every block), solver types, file names, read-from-file origin, '
         'type-setter route; in pairs a MOP deviation is taken only from the positions the converters treat '
         '(10,12,14,16,17,20,21,22,23,24), the other 14 positions are singles and crossed with MP; export: 27 rectangular '
         'geometries x 3 atmosphere types x 3 block orders x 2 grid orders, every block position x boundary volumes, '
@@ -434,12 +435,42 @@ def toggle_section(dat, flavour, sec):
             dat.history_generator = [g.block.get(BLK['a2'], BLK['a2'])]
 
 
+GOFT_VARIANTS = ['three', 'twice', 'twice-multi', 'nogen', 'only-nogen', 'atm', 'all']
+
+
+def apply_goft(dat, variant):
+    """Other GOFT lists for the TOUGH2 base (which already requests b2 with one generator and a2 with two):
+    a block with three generators of different names and types, a block requested twice, requested blocks
+    that hold no generator, every block."""
+    from t2data import t2generator
+    g = dat.grid
+
+    def blk(key):
+        return g.block.get(BLK[key], BLK[key])
+    if variant == 'three':
+        dat.add_generator(t2generator(name='wel 2', block=BLK['b1'], type='MASS', gx=-2., ex=0.))
+        dat.add_generator(t2generator(name='hea 2', block=BLK['b1'], type='HEAT', gx=500.))
+        dat.history_generator = [blk('b1'), blk('b2')]
+    elif variant == 'twice':
+        dat.history_generator = [blk('b2'), blk('a2'), blk('b2')]
+    elif variant == 'twice-multi':
+        dat.history_generator = [blk('a2'), blk('a2')]
+    elif variant == 'nogen':
+        dat.history_generator = [blk('a1'), blk('b2'), blk('a2')]
+    elif variant == 'only-nogen':
+        dat.history_generator = [blk('a1')]
+    elif variant == 'atm':
+        dat.history_generator = [blk('atm'), blk('a2')]
+    elif variant == 'all':
+        dat.history_generator = [blk(k) for k in ('atm', 'a1', 'b1', 'a2', 'b2')]
+
+
 SHORT_PARTS = {'b': 'block', 'c': 'connection', 'g': 'generator'}
 
 # order in which atoms are applied; only one atom of an exclusive kind per configuration
-KIND_ORDER = ['sec', 'gen', 'mop', 'lineq', 'solver', 'sim', 'simarg', 'short', 'hist', 'fname', 'mp', 'route',
+KIND_ORDER = ['sec', 'gen', 'mop', 'lineq', 'solver', 'sim', 'simarg', 'short', 'goft', 'hist', 'fname', 'mp', 'route',
               'origin']
-EXCLUSIVE = {'lineq', 'solver', 'sim', 'simarg', 'short', 'hist', 'fname', 'mp', 'route', 'origin'}
+EXCLUSIVE = {'goft', 'lineq', 'solver', 'sim', 'simarg', 'short', 'hist', 'fname', 'mp', 'route', 'origin'}
 
 
 def atom_sort_key(a):
@@ -497,6 +528,8 @@ def build(direction, atoms):
                 if part in old:
                     new[part] = old[part]
             dat.short_output = new
+        elif kind == 'goft':
+            apply_goft(dat, a[1])
         elif kind == 'hist':
             for rep, attr in zip(a[1], ('history_block', 'history_connection', 'history_generator')):
                 lst = getattr(dat, attr)
@@ -590,6 +623,8 @@ def atoms_for(direction):
         for rep in itertools.product('aon', repeat=3):
             if rep != ('o', 'o', 'o'):
                 out.append(('hist', ''.join(rep)))
+        for v in GOFT_VARIANTS:
+            out.append(('goft', v))
     for f in FNAMES:
         out.append(('fname', f))
     out.append(('mp',))
@@ -870,17 +905,31 @@ def clauses_T2A(pre, post, meta, V):
         got = list(sh.get(part, ()))
         if not (cm.is_subsequence(required, got) and cm.multiset_leq(got, required + optional)):
             V('short-items-wrong', part, 'SHORT %s items %r, history requests before %r' % (part, got, pre[hist]))
-    genblocks = set(g[G_BLOCK] for g in post['gens'])
-    required = [n for k, n in pre['hist_gen'] if k == 'obj' and n in genblocks and n in blocknames]
-    optional = [n for k, n in pre['hist_gen'] if k == 'name' and n in genblocks]
+    # a GOFT request names a block: it asks for every generator of that block.  SHORT lists generators, so the
+    # mirror image is every generator whose block is a requested block, each once (a block requested twice or
+    # holding no generator adds nothing); the order of the items is not fixed by the statement
+    reqblocks = set(n for k, n in pre['hist_gen'] if k == 'obj' and n in blocknames)
+    optblocks = set(n for k, n in pre['hist_gen'] if k == 'name')
+    required = [j for j, g in enumerate(post['gens']) if g[G_BLOCK] in reqblocks]
     got = list(sh.get('generator', ()))
-    gotblocks = [b for b, n, t, i in got]
-    missing = [b for b in required if b not in gotblocks]
-    extra = [b for b in gotblocks if b not in required + optional]
+    gotidx = [i for b, n, t, i in got]
+    perblock = {}
+    for g in post['gens']:
+        perblock[g[G_BLOCK]] = perblock.get(g[G_BLOCK], 0) + 1
+    requested = [n for k, n in pre['hist_gen']]
+    missing = [j for j in required if j not in gotidx]
     if missing:
-        V('short-generators-lost', 'history-by-block-object',
-          'history generator requests for blocks %r (which hold generators) gave SHORT generator items %r'
-          % (required, [(b, n) for b, n, t, i in got]))
+        several = any(perblock[post['gens'][j][G_BLOCK]] > 1 for j in missing)
+        V('short-generators-lost', 'several-generators-in-history-block' if several else 'history-by-block-object',
+          'history generator requests for blocks %r: generators %r of those blocks are not among the SHORT generator '
+          'items %r' % (requested, [post['gens'][j][:2] + (post['gens'][j][G_TYPE],) for j in missing],
+                        [(b, n) for b, n, t, i in got]))
+    twice = sorted(set(i for i in gotidx if i >= 0 and gotidx.count(i) > 1))
+    if twice:
+        V('short-generator-listed-twice', 'block-requested-twice' if len(requested) > len(set(requested)) else 'other',
+          'SHORT generator items %r list generator(s) %r more than once (history requests %r)'
+          % ([(b, n) for b, n, t, i in got], [post['gens'][i][:2] for i in twice], requested))
+    extra = [(b, n) for b, n, t, i in got if b not in reqblocks and b not in optblocks]
     if extra:
         V('short-items-wrong', 'generator', 'SHORT generator items %r were never requested (requests %r)'
           % (extra, pre['hist_gen']))
